@@ -165,7 +165,7 @@ def run(tier: str, seed: int, st: core.ProofStatus) -> core.Result:
                 "file+directory CLI invocations vs the model's single-pass prediction, 5 linters x {., file, dir} CLI vs "
                 "Linter.lint(rules=[linter]); non-trivial = compared outputs with >= 2 violations; distinct by (kind, inputs)")
     rng = core.sub_rng(seed, PROP, tier)
-    n = 40 if tier == "quick" else 1000
+    n = 60 if tier == "quick" else 1000
     root = core.scratch_dir("c10")
     try:
         impls = core.pmap(impl_case, [(i, rng.randrange(1 << 30), str(root)) for i in range(n)], procs=16)
